@@ -15,8 +15,11 @@ pub mod c06;
 pub mod c07;
 pub mod c08;
 pub mod c09;
+pub mod c10;
 pub mod c11;
+pub mod c12;
 pub mod c13;
+pub mod c14;
 pub mod c16;
 
 #[derive(Clone, Copy, Debug, PartialEq, Eq)]
@@ -49,12 +52,14 @@ pub struct PropDef {
 pub fn enumeration(id: &str) -> Option<fn(u64, Tier) -> Option<Value>> {
   match id {
     "C16" => Some(c16::enum_case),
+    "C20" => Some(c14::enum_case20),
+    "C12" => Some(c12::enum_case),
     _ => None,
   }
 }
 
 pub fn all() -> Vec<PropDef> {
-  vec![c01::def(), c02::def(), c03::def(), c04::def(), c05::def(), c06::def(), c07::def(), c08::def(), c09::def(), c11::def(), c13::def(), c16::def()]
+  vec![c01::def(), c02::def(), c03::def(), c04::def(), c05::def(), c06::def(), c07::def(), c08::def(), c09::def(), c10::def(), c11::def(), c12::def(), c13::def(), c14::def(), c14::def20(), c16::def()]
 }
 
 pub fn find(id: &str) -> Option<PropDef> {
@@ -66,6 +71,7 @@ pub fn trigger(name: &str) -> Option<fn(&Value, &str, &str) -> bool> {
   match name {
     "sms_map_without_mapped_segment" => Some(trig_sms_map_without_mapped_segment),
     "cached_under_replace" => Some(trig_cached_under_replace),
+    "nonascii_cached_replay" => Some(trig_nonascii_cached_replay),
     "replace_empty_ops_finer_column" => Some(c13::trig_replace_empty_ops_finer_column),
     _ => None,
   }
@@ -84,6 +90,26 @@ fn trig_sms_map_without_mapped_segment(case: &Value, clause: &str, _d: &str) -> 
     spec.map_delegate(),
     crate::spec::Spec::SourceMap { inner: None, .. }
   )
+}
+
+/// The tree has a CachedSource and non-ASCII text, and the same tree with
+/// every CachedSource removed passes the clause: columns of non-ASCII text are
+/// counted in bytes by OriginalSource / ReplaceSource but in characters by the
+/// map-driven streaming that CachedSource uses to replay, so the replay cuts
+/// and attributes the text differently from the first stream.
+fn trig_nonascii_cached_replay(case: &Value, clause: &str, _d: &str) -> bool {
+  let spec = spec_of(case);
+  if spec.model_text().is_ascii() || !spec.contains(&|s| matches!(s, crate::spec::Spec::Cached { .. })) {
+    return false;
+  }
+  let Some(prop) = case.get("property").and_then(|p| p.as_str()).and_then(find) else {
+    return false;
+  };
+  let mut c = case.clone();
+  c["spec"] = spec.without_cached().to_json();
+  c["b"] = Value::Null;
+  let obs = crate::worker::eval(&prop, &c);
+  !obs.has_clause(clause) && obs.inconclusive.is_empty()
 }
 
 /// The tree has a CachedSource beneath a ReplaceSource with replacements and
